@@ -154,3 +154,183 @@ Proof.
   split; [|vm_compute; reflexivity].
   constructor; try (vm_compute; intuition discriminate).
 Qed.
+
+(* ================================================================================================
+   Composition with the reference interpreter (C01) and the gas meter (C13): the hypotheses of the
+   theorems above that speak about the EXECUTION are theorems about [run_tx] (Model/Evm.v:
+   transact_preverified_inner with the first frame executed by the interpreter of Model/Step.v).
+   Proofs in Proofs/EvmGasProofs.v.
+
+   [tx_gas_ok W]: gas_limit is a u64, 0 <= intrinsic <= gas_limit, 0 <= floor <= gas_limit — what
+   validate_initial_tx_gas establishes (C09_interpreter_gas_hypotheses_from_validation).
+   [first_frame f W]: run_tx cut after the first frame (load_access_list, deduct_caller,
+   apply_eip7702_auth_list, make_call_frame / make_create_frame, the frame's execution);
+   [tx_auth_refund W]: the EIP-7702 refund that run_tx hands to post_execution::refund.
+   [frame_class (tr_reason tr)]: the class last_frame_return gives to the result of the first
+   frame (return_ok! / return_revert! / anything else).
+
+   None of the C09_interpreter_* gas theorems has a hypothesis about the frame result. *)
+From RevmV Require Import Model.Step Model.Evm Proofs.EvmGasProofs.
+
+(* the frame result that reaches last_frame_return: its meter satisfies the C13 invariant, has
+   the limit gas_limit - intrinsic, hands back 0 <= remaining <= gas_limit - intrinsic, and the
+   refund counter that post_execution::refund forms from it is an i64 *)
+Theorem C09_interpreter_frame_result_bounds :
+  forall f W tr, run_tx f W = XDone tr -> tx_gas_ok W ->
+  exists G3 r cr,
+    first_frame f W = XDone (G3, r, cr) /\ tr_reason tr = ir_res r /\
+    Gas.gas_inv (ir_gas r) /\ Gas.limit (ir_gas r) = tx_limit W - tx_initial W /\
+    0 <= Gas.remaining (ir_gas r) <= tx_limit W - tx_initial W /\
+    (frame_class (ir_res r) = FOk -> in_i64 (Gas.refunded (ir_gas r) + tx_auth_refund W)) /\
+    0 <= tx_auth_refund W.
+Proof. exact run_tx_frame_bounds. Qed.
+
+(* the property's gas clauses for the numbers run_tx reports, for every world, program, hardfork
+   and fuel: intrinsic <= spent <= gas limit (spent = gas limit when the frame halts);
+   0 <= gas used <= gas limit; floor <= gas used; 0 <= refund <= spent / q (q = 5 from LONDON,
+   2 before); gas used >= spent - spent / q >= intrinsic - intrinsic / q; gas used = spent - refund
+   unless the EIP-7623 floor applies, which also clears the refund.  The exact relation between
+   intrinsic gas and gas used is the last three clauses: intrinsic <= gas used + refund, or the
+   floor applies (C09_literal_intrinsic_le_gas_used_refuted shows that no more holds).
+   No sign assumption on the frame's refund counter: a negative counter is cast to u64 and the
+   cap wins (C13_final_refund_negative_cast). *)
+Theorem C09_interpreter_gas_bounds :
+  forall f W tr, run_tx f W = XDone tr -> tx_gas_ok W ->
+  exists spent,
+    tx_initial W <= spent <= tx_limit W /\
+    (frame_class (tr_reason tr) = FHalt -> spent = tx_limit W) /\
+    0 <= tr_gas_used tr <= tx_limit W /\ tx_floor W <= tr_gas_used tr /\
+    0 <= tr_gas_refunded tr <= spent / refund_quotient (w_spec W) /\
+    spent - spent / refund_quotient (w_spec W) <= tr_gas_used tr /\
+    tx_initial W - tx_initial W / refund_quotient (w_spec W) <= tr_gas_used tr /\
+    (tr_gas_used tr = spent - tr_gas_refunded tr \/
+     (tr_gas_used tr = tx_floor W /\ tr_gas_refunded tr = 0 /\
+      spent - spent / refund_quotient (w_spec W) <= tx_floor W)).
+Proof. exact run_tx_gas_bounds. Qed.
+
+(* C09_refund_on_revert_or_halt for run_tx: when the first frame does not end ok the reported
+   refund is at most the EIP-7702 refund, hence zero without one *)
+Theorem C09_interpreter_refund_on_revert_or_halt :
+  forall f W tr, run_tx f W = XDone tr -> tx_gas_ok W ->
+    frame_class (tr_reason tr) <> FOk ->
+    tr_gas_refunded tr <= tx_auth_refund W /\ (tx_auth_refund W = 0 -> tr_gas_refunded tr = 0).
+Proof. exact run_tx_refund_on_failure. Qed.
+
+(* C09_halt_uses_whole_limit / C09_halt_with_7702_refund for run_tx *)
+Theorem C09_interpreter_halt_uses_whole_limit :
+  forall f W tr, run_tx f W = XDone tr -> tx_gas_ok W ->
+    frame_class (tr_reason tr) = FHalt ->
+    tr_gas_used tr = Z.max (tx_floor W)
+                       (tx_limit W - Z.min (tx_auth_refund W) (tx_limit W / refund_quotient (w_spec W))) /\
+    (tx_auth_refund W = 0 -> tr_gas_used tr = tx_limit W /\ tr_gas_refunded tr = 0).
+Proof. exact run_tx_halt. Qed.
+
+(* the EIP-7702 refund: never negative; none without an authorization list or before PRAGUE *)
+Theorem C09_interpreter_7702_refund :
+  forall W, 0 <= tx_auth_refund W /\
+    (w_auth_list W = [] \/ en (w_spec W) E.PRAGUE = false -> tx_auth_refund W = 0).
+Proof. intros W. split; [apply tx_auth_refund_nonneg|apply tx_auth_refund_none]. Qed.
+
+(* the reported class (SuccessOrHalt::from) against the class last_frame_return uses: success is
+   return_ok!, revert is return_revert!; a Halt result is in neither macro except for
+   CallTooDeep / OutOfFunds (return_revert! results that are reported as Halt — not reachable for
+   the first frame of a validated transaction) and the internal codes 0, 4, 21 *)
+Theorem C09_interpreter_result_class :
+  forall f W tr, run_tx f W = XDone tr ->
+    (tr_class tr = 0 -> frame_class (tr_reason tr) = FOk) /\
+    (tr_class tr = 1 -> frame_class (tr_reason tr) = FRevert) /\
+    (tr_class tr = 2 -> tr_reason tr <> 0 -> tr_reason tr <> 4 -> tr_reason tr <> R_CallTooDeep ->
+     tr_reason tr <> R_OutOfFunds -> tr_reason tr <> 21 -> frame_class (tr_reason tr) = FHalt).
+Proof. exact run_tx_class. Qed.
+
+(* [validated] for run_tx.  A record that holds for the trivial frame result (that is: the
+   gas-limit, price, balance and beneficiary fields v_gl v_initial v_floor v_price v_cap v_basefee
+   v_london v_blob v_balance v_delta v_coinbase, which do not speak about the frame; the first nine
+   follow from validation by C09_validation_establishes_bounds) holds for the frame result run_tx
+   hands to the settlement and for its EIP-7702 refund: v_rem, v_auth and v_counter are derived.
+   The reported gas_used / gas_refunded are then the closed form of C09_settlement_closed_form, so
+   every theorem above applies to run_tx.
+   Not derived: v_fref for a frame that ends ok, i.e. [top_refund_nonneg] (the refund counter of
+   the FIRST frame is not negative).  It is not a consequence of frame accounting — see
+   C09_interpreter_frame_refund_nonneg_refuted — but of the SSTORE refund schedule over a whole
+   transaction.  (The refund of a frame that does not end ok is never read: [frame_of_norm].)
+   v_delta (the execution moves the sender's balance by d inside [0, 2^256)) stays a parameter. *)
+Theorem C09_interpreter_establishes_validated :
+  forall f W tr b0 d c0,
+    run_tx f W = XDone tr -> top_refund_nonneg f W ->
+    validated (w_spec W) (w_env W) (tx_initial W) (tx_floor W) (mkFrame FHalt 0 0) 0 b0 d c0 ->
+    exists G3 r cr,
+      first_frame f W = XDone (G3, r, cr) /\ tr_reason tr = ir_res r /\
+      let fr := frame_of_norm r in let auth := tx_auth_refund W in
+      validated (w_spec W) (w_env W) (tx_initial W) (tx_floor W) fr auth b0 d c0 /\
+      f_class fr = frame_class (tr_reason tr) /\
+      tr_gas_used tr = used (w_spec W) (w_env W) (tx_floor W) fr auth /\
+      tr_gas_refunded tr = refd (w_spec W) (w_env W) (tx_floor W) fr auth.
+Proof. exact run_tx_validated. Qed.
+
+(* [tx_gas_ok] from the validation pipeline (C02) *)
+Theorem C09_interpreter_gas_hypotheses_from_validation :
+  forall W c b t s,
+    wf_cfg c -> wf_block b -> wf_tx t -> wf_sender s -> in_domain (w_spec W) t ->
+    w_env W = mkEnv c b (to_tx_env t) ->
+    preverify (w_spec W) (w_env W) s = VOk -> tx_gas_ok W.
+Proof. exact tx_gas_ok_of_validation. Qed.
+
+(* "refund >= 0" is false for frames in general: CANCUN, 0x1000 has cleared its slot 0 (original
+   value 1, refund +4800 in that frame); a DELEGATECALL frame then sets the slot back to 1 and ends
+   ok with the refund counter -4800 + 2800 = -2000 *)
+Theorem C09_interpreter_frame_refund_nonneg_refuted :
+  exists f W G c G' r,
+    do_call W (exec f W) G c = XDone (G', r) /\ is_ok (ir_res r) = true /\ Gas.refunded (ir_gas r) < 0.
+Proof. exact frame_refund_nonneg_refuted. Qed.
+
+(* non-vacuity: the CANCUN world of that witness as a transaction (0x1000 clears a slot: refund
+   4800 capped at spent / 5) meets every hypothesis used above, and run_tx reports the closed form *)
+Example C09_interpreter_hypotheses_satisfiable :
+  tx_gas_ok neg_world /\ top_refund_nonneg 200 neg_world /\
+  validated (w_spec neg_world) (w_env neg_world) (tx_initial neg_world) (tx_floor neg_world)
+            (mkFrame FHalt 0 0) 0 (10 ^ 30) 0 0 /\
+  match run_tx 200 neg_world with
+  | XDone tr => tr_class tr = 0 /\ tr_gas_used tr = 26006 - 4800 /\ tr_gas_refunded tr = 4800
+  | _ => False
+  end.
+Proof.
+  split; [vm_compute; intuition discriminate|].
+  split; [apply top_refund_nonneg_by_run; vm_compute; reflexivity|].
+  split.
+  { constructor; try (vm_compute; intuition discriminate).
+    intros _. vm_compute. eexists. split; [reflexivity|discriminate]. }
+  vm_compute. repeat split; reflexivity.
+Qed.
+
+(* a halting first frame (INVALID 0xfe): the whole limit is used, nothing is refunded.  And why
+   the halt clause is stated on the class last_frame_return uses rather than on the reported
+   class: a world that would NOT pass validate_tx_against_state (value above the balance) makes
+   the first frame end with OutOfFunds — a return_revert! result whose gas is handed back — which
+   SuccessOrHalt reports as Halt: class 2 with gas_used = intrinsic gas only *)
+Definition halt_world : world :=
+  mkW 17 (E.mkEnv (E.mainnet_cfg 1) (E.mkBlock (2^256-1) 0 true (Some 1))
+                  (E.mkTx 200000 1 false 0 [] (Some 7) None [] None [] None None))
+      0xCA11E4 (Some 0x1000) 0 [] [] [] [] 0xC01BBA5E 100 1700000000 0 0x1234
+      [(0x1000, (0, 1, 77)); (0xCA11E4, (10^30, 7, 0))] [] [(77, [0xfe])] [].
+Definition unfunded_world : world :=
+  mkW 17 (E.mkEnv (E.mainnet_cfg 1) (E.mkBlock (2^256-1) 0 true (Some 1))
+                  (E.mkTx 200000 1 false 0 [] (Some 7) None [] None [] None None))
+      0xCA11E4 (Some 0x1000) (10^31) [] [] [] [] 0xC01BBA5E 100 1700000000 0 0x1234
+      [(0x1000, (0, 1, 77)); (0xCA11E4, (10^30, 7, 0))] [] [(77, [0xfe])] [].
+Example C09_interpreter_halt_examples :
+  tx_gas_ok halt_world /\
+  match run_tx 200 halt_world with
+  | XDone tr => tr_class tr = 2 /\ frame_class (tr_reason tr) = FHalt /\
+                tr_gas_used tr = tx_limit halt_world /\ tr_gas_refunded tr = 0
+  | _ => False
+  end /\
+  match run_tx 200 unfunded_world with
+  | XDone tr => tr_class tr = 2 /\ tr_reason tr = R_OutOfFunds /\ frame_class (tr_reason tr) = FRevert /\
+                tr_gas_used tr = tx_initial unfunded_world
+  | _ => False
+  end.
+Proof.
+  split; [vm_compute; intuition discriminate|].
+  split; vm_compute; repeat split; reflexivity.
+Qed.
